@@ -121,9 +121,18 @@ def addrLine (line : String) : String :=
     match asNat passed with
     | some passed =>
       (match one f1 p1 n1 a1 passed, one f2 p2 n2 a2 passed with
-       | some r1, some r2 => render (.list [.atom "listener2", r1, r2])
+       | some r1, some r2 => render (.list [.atom "listener2", r1, r2, .list [.atom "fds", .atom "ok"]])
        | _, _ => "(model-case-error)")
     | none => "(model-case-error)"
+  | some (.list [.atom "cliact"]) =>
+    -- two requests, two replies, whatever is between client and service (C16_transport_independent;
+    -- the pump hands the end of the client's stream on and forwards until the service closes)
+    "(cliact (activate 2) (bridge 2))"
+  | some (.list [.atom "errend"]) =>
+    -- `From<&io::Error> for ErrorKind`: BrokenPipe, ConnectionAborted, ConnectionReset and a plain end of
+    -- stream all are `ConnectionClosed`, on every transport
+    render (.list [.atom "errend", .list [.atom "unix", strAtom "ConnectionClosed"],
+                   .list [.atom "abstract", strAtom "ConnectionClosed"], .list [.atom "tcp", strAtom "ConnectionClosed"]])
   | some (.list [.atom "actlisten", _, _, rounds]) =>
     -- every round: the activated service adopts the supervisor's socket (C16_spawn_recipe /
     -- activationListener: one descriptor, own pid) and answers GetInfo; the socket's path is the supervisor's
@@ -232,7 +241,8 @@ def addrPred (prop caseLine obsLine : String) : String :=
       match asOptStr fds, parsePidSpec pid, asOptStr names, asStr a with
       | some fds, some pid, some names, some a => verdictStr (AddrPred.P_actenv fds pid names a (parseLRes r))
       | _, _, _, _ => "fail unparsable-case"
-    | .list [.atom "actenv2", .list [f1, p1, n1, a1], .list [f2, p2, n2, a2], _], .list [.atom "listener2", r1, r2] =>
+    | .list [.atom "actenv2", .list [f1, p1, n1, a1], .list [f2, p2, n2, a2], _],
+      .list [.atom "listener2", r1, r2, .list [.atom "fds", .atom fds]] =>
       let one (f p n a r : Sx) : Option (Option String) :=
         match asOptStr f, parsePidSpec p, asOptStr n, asStr a with
         | some f, some p, some n, some a => some (AddrPred.P_actenv f p n a (parseLRes r))
@@ -240,8 +250,21 @@ def addrPred (prop caseLine obsLine : String) : String :=
       match one f1 p1 n1 a1 r1, one f2 p2 n2 a2 r2 with
       | some (some r), _ => "fail " ++ r
       | some none, some (some r) => "fail second-listener-" ++ r
-      | some none, some none => "ok"
+      | some none, some none =>
+        -- adopting one descriptor leaves the others alone (they may be somebody else's by the second call)
+        if fds == "ok" then "ok" else "fail listener-creation-touches-foreign-descriptors-" ++ fds
       | _, _ => "fail unparsable-case"
+    | .list [.atom "cliact"], .list [.atom "cliact", .list [_, a], .list [_, b]] =>
+      if render a != "2" then "fail replies-lost-behind-cli-activate-on-input-end"
+      else if render b != "2" then "fail replies-lost-behind-cli-bridge-command-on-input-end"
+      else "ok"
+    | .list [.atom "errend"], .list [.atom "errend", .list [_, u], .list [_, a], .list [_, t]] =>
+      match asStr u, asStr a, asStr t with
+      | some u, some a, some t =>
+        if u != t || a != t then "fail transports-disagree-on-how-the-connection-ended"
+        else if t != "ConnectionClosed" then "fail connection-end-not-reported-as-closed"
+        else "ok"
+      | _, _, _ => "fail unparsable-case-or-observation"
     | .list [.atom "actlisten", nb, idle, _], .list (.atom "actlisten" :: rs) =>
       let suffix := "-nonblock-" ++ render nb ++ "-idle-" ++ render idle
       let bad := rs.findSome? fun r => match r with
